@@ -169,6 +169,49 @@ func (s *fieldStability) transWriters(f *types.Var) map[*ssa.Function]bool {
 
 func (s *fieldStability) stable(fn *ssa.Function, f *types.Var) bool { return !s.transWriters(f)[fn] }
 
+// forward: a load of base.f that is dominated by the only store to field f in its function (same base value),
+// with no call in the function that can reach another store to f, yields the stored value.
+func (s *fieldStability) forward(load *ssa.UnOp) (ssa.Value, bool) {
+	fa, ok := load.X.(*ssa.FieldAddr)
+	if !ok {
+		return nil, false
+	}
+	f := core.FieldOfAddr(fa)
+	fn := load.Parent()
+	if f == nil || fn == nil {
+		return nil, false
+	}
+	var stores []*ssa.Store
+	callsWriter := false
+	w := s.transWriters(f)
+	var node *callgraph.Node
+	if cg := s.p.CallGraph(); cg != nil {
+		node = cg.Nodes[fn]
+	}
+	core.Instrs(fn, func(in ssa.Instruction) {
+		if st, ok := in.(*ssa.Store); ok {
+			if sfa, ok := st.Addr.(*ssa.FieldAddr); ok && core.FieldOfAddr(sfa) == f {
+				stores = append(stores, st)
+			}
+		}
+	})
+	if node != nil {
+		for _, e := range node.Out {
+			if w[e.Callee.Func] {
+				callsWriter = true
+			}
+		}
+	}
+	if len(stores) != 1 || callsWriter {
+		return nil, false
+	}
+	st := stores[0]
+	if st.Addr.(*ssa.FieldAddr).X != fa.X || !core.InstrDominates(st, load) {
+		return nil, false
+	}
+	return st.Val, true
+}
+
 type libRow struct {
 	callerType string // when set: safe only for a receiver IE whose Type is known to equal ie.<callerType> at every call
 	reason     string
@@ -235,7 +278,7 @@ func libDecodeSites(p *core.Program, reach map[*ssa.Function]*ssa.Function) ([]l
 
 func newLinEnv(p *core.Program) *core.LinEnv {
 	st := &fieldStability{p: p, writers: map[*types.Var]map[*ssa.Function]bool{}}
-	return &core.LinEnv{StableField: st.stable}
+	return &core.LinEnv{StableField: st.stable, ForwardLoad: st.forward}
 }
 
 func shortFile(f string) string {
